@@ -42,6 +42,7 @@ EXCEPTIONS = {
 SORT_KEY_FUNCS = {"get_vehicles", "get_requests", "get_stations", "get_bases", "iterate_vals", "iterate_items", "iterate_sim_coll"}
 SEEDERS = {"random.seed", "numpy.random.seed", "np.random.seed"}
 RANDOM_PREFIX = ("random.", "numpy.random.", "np.random.", "secrets.")
+FS_ORDER = {"os.listdir", "os.scandir", "os.walk", "glob.glob", "glob.iglob"}
 WALL_CLOCK = {"time.time", "time.time_ns", "time.perf_counter", "time.monotonic", "datetime.now", "datetime.datetime.now", "datetime.datetime.utcnow",
               "datetime.datetime.today", "datetime.date.today", "os.urandom"}
 
@@ -231,6 +232,18 @@ def uuids(ctx: Ctx):
                 d = fq_dotted(fn.module, node.func) or ""
                 if d in ("id", "hash") and enclosing_func(node) is fn and fn.name not in ("__hash__", "__eq__"):
                     ctx.violation("D4", "HO.process-value", f"{fn.qualname}: {d}(...)", fn, node, why=f"{d}() differs between processes / hash seeds", construct=f"{fn.qualname}:{d}")
+                fs = d in FS_ORDER or (isinstance(node.func, ast.Attribute) and node.func.attr in ("glob", "rglob", "iterdir") and d not in ("glob.glob",))
+                if d == "glob.glob":
+                    fs = True
+                if fs:
+                    par = parent(node)
+                    in_sorted = isinstance(par, ast.Call) and (dotted(par.func) or "") == "sorted"
+                    if in_sorted or isinstance(par, ast.Call) and (dotted(par.func) or "") in ("len", "set", "frozenset", "any", "all"):
+                        ctx.ok("D4", "HO.fs-order", f"{fn.qualname}: {d or node.func.attr}() is consumed order-free / sorted", fn, node)
+                    else:
+                        ctx.violation("D4", "HO.fs-order", f"{fn.qualname}: {d or node.func.attr}()", fn, node,
+                                      why="directory listing order is the file system's, not the program's: entities or rows read in that order differ between machines",
+                                      construct=f"{fn.qualname}:fs-order:{d or node.func.attr}")
                 if d in WALL_CLOCK and not fn.relpath.startswith(PKG + "/runner"):
                     ctx.violation("D4", "HO.process-value", f"{fn.qualname}: {d}()", fn, node, why="wall-clock time in simulation code", construct=f"{fn.qualname}:{d}")
 
@@ -255,6 +268,8 @@ def selftest():
         V("unseeded-random-in-generator", DISP, "        base_charging_range_km_threshold = (", "        import random\n        _jitter = random.random()\n        base_charging_range_km_threshold = (", rule="HO.random"),
         V("uuid-as-key", "nrel/hive/state/vehicle_state/idle.py", "        return Idle(vehicle_id=vehicle_id, instance_id=uuid4())", "        return Idle(vehicle_id=str(uuid4()), instance_id=uuid4())", rule="HO.uuid"),
         V("aliased-draw", SSO, "        sorted_other_vehicles = tuple(sorted(other_vehicles, key=lambda v: v.id))", "        from random import shuffle as _sh\n        sorted_other_vehicles = tuple(sorted(other_vehicles, key=lambda v: v.id))\n        _sh(list(sorted_other_vehicles))", rule="HO.random"),
+        V("listdir-order", "nrel/hive/initialization/load.py", "def load_config(", "def _inputs_in(d):\n    import os\n    return [os.path.join(d, f) for f in os.listdir(d)]\n\n\ndef load_config(", rule="HO.fs-order"),
+        V("twin-listdir-sorted", "nrel/hive/initialization/load.py", "def load_config(", "def _inputs_in(d):\n    import os\n    return [os.path.join(d, f) for f in sorted(os.listdir(d))]\n\n\ndef load_config(", kind="twin"),
         V("twin-sorted-identity-key", STEP, "        for vid in sorted(i_stack.keys()):", "        for vid in sorted(i_stack.keys(), key=lambda k: k):", kind="twin"),
         V("twin-keyed-loop", "nrel/hive/model/vehicle/vehicle.py", "        energy_expended = {k: self.energy_expended[k] + delta_energy[k] for k in self.energy.keys()}", "        energy_expended = {}\n        for k in self.energy.keys():\n            energy_expended[k] = self.energy_expended[k] + delta_energy[k]", kind="twin"),
     ]
